@@ -343,6 +343,12 @@ def make_publisher(world, ep, iid, role, direction, script):
     def rec(cb, **kw):
         world.rec('pub', ep=ep, iid=iid, role=role, cb=cb, src=src, **kw)
 
+    if src in ('lib-empty', 'lib-error'):
+        # the library's ready-made publishers: nothing but a completion / nothing but an error
+        from rsocket.streams.empty_stream import EmptyStream
+        from rsocket.streams.error_stream import ErrorStream
+        return _PubProxy(world, ep, iid, role, src, EmptyStream() if src == 'lib-empty' else ErrorStream(AppError('E%02d' % iid)))
+
     def items():
         for k in range(count):
             if error_at is not None and k == error_at:
@@ -574,6 +580,20 @@ def handler_class():
 # requester actions
 # ------------------------------------------------------------------------------------------
 
+def _cancel_sent_future(world, ep_name, ia, fut):
+    """The application gives up waiting for 'sent' (e.g. wait_for timed out): it cancels the awaitable it was handed."""
+    cancel = ia.get('cancel')
+    if cancel is None:
+        return
+
+    def do_cancel():
+        if not fut.done():
+            world.rec('act', ep=ep_name, what='cancel_sent_future', iid=ia['id'])
+            fut.cancel()
+
+    world.loop.call_at(world.loop.time() + cancel.get('at', 0.0), lambda: world.loop.call_after_hops(cancel.get('hops', 0), do_cancel))
+
+
 def start_interaction(world, ep_name, ia):
     """Perform the requester-side API call for interaction `ia` on endpoint `ep_name`."""
     from rsocket.payload import Payload
@@ -586,12 +606,16 @@ def start_interaction(world, ep_name, ia):
         if kind == 'push':
             md = content(iid, 'q', 0, 'M', max(TAG_LEN, req.get('mlen') or TAG_LEN))
             fut = ep.metadata_push(md)
-            fut.add_done_callback(lambda f: world.rec('fut', ep=ep_name, iid=iid, role='requester', state='sent'))
+            fut.add_done_callback(lambda f: world.rec('fut', ep=ep_name, iid=iid, role='requester',
+                                                      state='cancelled' if f.cancelled() else 'sent'))
+            _cancel_sent_future(world, ep_name, ia, fut)
             return
         payload = make_payload(iid, 'q', 0, req.get('dlen', 16), req.get('mlen'))
         if kind == 'fnf':
             fut = ep.fire_and_forget(payload)
-            fut.add_done_callback(lambda f: world.rec('fut', ep=ep_name, iid=iid, role='requester', state='sent'))
+            fut.add_done_callback(lambda f: world.rec('fut', ep=ep_name, iid=iid, role='requester',
+                                                      state='cancelled' if f.cancelled() else 'sent'))
+            _cancel_sent_future(world, ep_name, ia, fut)
         elif kind == 'rr':
             fut = ep.request_response(payload)
 
